@@ -11,5 +11,5 @@ cd /verif
 for P in "$@"; do
   /venv/bin/python harness/check.py $P --tier ${TIER:-quick} ${EXTRA:---model-only} 2>&1 | grep -v conda | grep -E "VIOLATION|^C[0-9]+ tier" | cut -c1-220
 done
-git -C /repo checkout -- .
+git -C /repo checkout HEAD -- .
 echo "== reverted; status: $(git -C /repo status --porcelain --untracked-files=no | wc -l) dirty files"
